@@ -254,14 +254,23 @@ def run_job(job, workdir):
     if ignoring:
         r.status = 'undecided'
         return r
-    if r.n_err:
-        r.reason = '%d obligations in state ERROR/UNKNOWN' % r.n_err
-        return r
     if not r.obligations:
         r.reason = 'zero obligations generated (vacuous)'
         return r
-    if r.n_fail:
+    # A FAILURE comes with a concrete trace and is definitive even when other obligations were left
+    # UNKNOWN -- except a failed unwinding/recursion assertion, which only says the bound was too small.
+    real_fail = [o for o in r.failed if not re.search(r'\.unwind\.|\.recursion|unwinding assertion', o[0] + ' ' + o[1])]
+    if real_fail:
+        r.failed = real_fail + [o for o in r.failed if o not in real_fail]
         r.status = 'fail'
+        if r.n_err:
+            r.reason = '%d other obligations left UNKNOWN' % r.n_err
+        return r
+    if r.n_fail:
+        r.reason = 'unwinding assertion failed: bound too small (%s)' % r.failed[0][0]
+        return r
+    if r.n_err:
+        r.reason = '%d obligations in state ERROR/UNKNOWN' % r.n_err
         return r
     if cprover_status != 'success':
         r.reason = 'cProverStatus=%s' % cprover_status
